@@ -193,17 +193,21 @@ func splitFamily(maxSplits int, budget time.Duration) mc.Family {
 		}
 	}
 	// item = (program, first boundary)
-	type it struct{ p, first int }
+	// budget modes: none; one operation less than the program needs; about half
+	type it struct{ p, first, mode int }
 	var items []it
 	for pi, p := range progs {
 		for b := 0; b <= len(p.Tokens); b++ {
-			items = append(items, it{pi, b})
+			for mode := 0; mode < 3; mode++ {
+				items = append(items, it{pi, b, mode})
+			}
 		}
 	}
-	refs := map[int]string{}
+	refs := map[[2]int]string{}
+	totals := map[int]int{}
 	return mc.Family{
 		Name: "execute-splitting", Items: len(items), Budget: budget,
-		Rule: fmt.Sprintf("%d programs that do not read their own text x every set of 1..%d token boundaries (boundary = immediately after a token's last byte, also inside an unfinished procedure body), the pieces fed to ONE interpreter in consecutive Execute calls; item = (program, first boundary), further boundaries by c.Choose; non-trivial = at least one piece boundary inside the program", len(progs), maxSplits),
+		Rule: fmt.Sprintf("%d programs that do not read their own text x every set of 1..%d token boundaries (boundary = immediately after a token's last byte, also inside an unfinished procedure body), the pieces fed to ONE interpreter in consecutive Execute calls, x operation budget {none, one less than the program needs, about half of it}; item = (program, first boundary, budget), further boundaries by c.Choose; state, error and operation count compared with the one-call run; non-trivial = at least one piece boundary inside the program", len(progs), maxSplits),
 		Body: func(c *mc.Ctx, item int) mc.Verdict {
 			p := progs[items[item].p]
 			cuts := []int{items[item].first}
@@ -217,16 +221,37 @@ func splitFamily(maxSplits int, budget time.Duration) mc.Family {
 				cuts = append(cuts, last+k)
 			}
 			checkStart := bytes.HasPrefix(p.Data, []byte("%!"))
-			ref, ok := refs[items[item].p]
+			mode := items[item].mode
+			total, ok := totals[items[item].p]
 			if !ok {
 				intp := postscript.NewInterpreter()
 				intp.CheckStart = checkStart
+				intp.Execute(bytes.NewReader(p.Data))
+				total = intp.NumOps
+				totals[items[item].p] = total
+			}
+			maxOps := 0
+			switch mode {
+			case 1:
+				maxOps = total - 1
+			case 2:
+				maxOps = total/2 + 1
+			}
+			if mode > 0 && maxOps < 1 {
+				return mc.Pass("n/a:program-too-short-for-a-budget", false)
+			}
+			ref, ok := refs[[2]int{items[item].p, mode}]
+			if !ok {
+				intp := postscript.NewInterpreter()
+				intp.CheckStart = checkStart
+				intp.MaxOps = maxOps
 				err := intp.Execute(bytes.NewReader(p.Data))
-				ref = pscmp.Canon(opTable, intp) + fmt.Sprint(" ERR ", err)
-				refs[items[item].p] = ref
+				ref = pscmp.Canon(opTable, intp) + fmt.Sprint(" ERR ", err, " NumOps ", intp.NumOps)
+				refs[[2]int{items[item].p, mode}] = ref
 			}
 			intp := postscript.NewInterpreter()
 			intp.CheckStart = checkStart
+			intp.MaxOps = maxOps
 			if checkStart && cuts[0] == 0 {
 				// an empty first piece cannot carry the %! header
 				return mc.Pass("n/a:empty-first-piece-with-start-check", false)
@@ -244,9 +269,9 @@ func splitFamily(maxSplits int, budget time.Duration) mc.Family {
 					break
 				}
 			}
-			got := pscmp.Canon(opTable, intp) + fmt.Sprint(" ERR ", err)
+			got := pscmp.Canon(opTable, intp) + fmt.Sprint(" ERR ", err, " NumOps ", intp.NumOps)
 			if got != ref {
-				v := mc.Fail("C12:split:"+p.Name, fmt.Sprintf("program %s split into %q: state differs from the one-call run: %s", p.Name, pieces, diffAt(got, ref)))
+				v := mc.Fail("C12:split:"+p.Name, fmt.Sprintf("program %s (MaxOps=%d) split into %q: state differs from the one-call run: %s", p.Name, maxOps, pieces, diffAt(got, ref)))
 				v.Render = fmt.Sprintf("%q", pieces)
 				return v
 			}
